@@ -115,10 +115,31 @@ class Framework:
                 json.dump({'property': self.pid, 'key': key, 'what': v['what'], 'case': v.get('case'), 'expect': v.get('expect'), 'count': len(vs)}, fh, indent=1, default=str)
             rep = v.get('reproduced')
             if rep is None and v.get('case') is not None and v.get('judge') is not None:
+                # several candidate models may exist for one violation key: report if any reproduces natively
+                cands = []
+                seen = set()
+                for cand in sorted(vs, key=lambda c: c.get('prio', 5)):
+                    if cand.get('case') is None or cand.get('judge') is None:
+                        continue
+                    kk = json.dumps(cand['case'], sort_keys=True, default=str)
+                    if kk in seen:
+                        continue
+                    seen.add(kk)
+                    cands.append(cand)
+                    if len(cands) >= 200:
+                        break
                 try:
-                    out = self.replay(v['case'])
-                    rep = bool(v['judge'](out))
-                    v['native'] = out
+                    outs = self.native().run_many([c['case'] for c in cands])
+                    self.replayed += len(cands)
+                    rep = False
+                    for cand, out in zip(cands, outs):
+                        cand['native'] = out
+                        if cand['judge'](out):
+                            rep = True
+                            v = cand
+                            with open(rp, 'w') as fh:
+                                json.dump({'property': self.pid, 'key': key, 'what': v['what'], 'case': v.get('case'), 'expect': v.get('expect'), 'count': len(vs)}, fh, indent=1, default=str)
+                            break
                 except Exception as e:   # replay infrastructure failure is inconclusive, not a violation
                     rep = None
                     self.inconclusive.append('replay failed for %s: %s' % (key, e))
